@@ -90,7 +90,23 @@ fn permutations3() -> Vec<[usize; 3]> {
 /// Entries and rows built by the caller through the public fields (as a front end does that edits
 /// the expected value or assembles its own report): the verdict rules hold for every combination of
 /// width, output and expected value, whether or not the numbers fit the width.
+/// Replay of one hand-built entry: the same index through the same code; the violation's message, or "as the rules say"
+pub fn replay_entry(j: &serde_json::Value) -> Vec<String> {
+    let want = j["index"].as_u64().unwrap_or(0);
+    let st = hand_built_range(&Deadline::new(std::time::Duration::from_secs(60)), want, want + 1);
+    let v: Vec<String> = st.violations.iter().map(|v| v.1.summary.lines().last().unwrap_or("").to_string()).collect();
+    if v.is_empty() {
+        vec!["as the rules say".into()]
+    } else {
+        v
+    }
+}
+
 pub fn hand_built_part(deadline: &Deadline) -> Stats {
+    hand_built_range(deadline, 0, u64::MAX)
+}
+
+fn hand_built_range(deadline: &Deadline, from: u64, to: u64) -> Stats {
     use digital_test_runner as dtr;
     let widths = [1usize, 2, 4, 8, 16, 32, 63, 64];
     let nums = [0i64, 1, 2, 3, 5, 15, 16, 17, 255, 256, -1, -2, -16, i64::MAX, i64::MIN, 1 << 32, (1 << 32) + 5];
@@ -106,6 +122,9 @@ pub fn hand_built_part(deadline: &Deadline) -> Stats {
     };
     let n = (widths.len() * 3 * outs.len() * exps.len()) as u64;
     par_range("entries built through the public fields: 8 widths x {output, bidirectional, declared} x 19 outputs x 19 expected values, alone and as the middle entry of a row", n, deadline, |u, st| {
+        if u < from || u >= to {
+            return;
+        }
         let mut c = u as usize;
         let e = exps[c % exps.len()];
         c /= exps.len();
@@ -167,7 +186,7 @@ pub fn hand_built_part(deadline: &Deadline) -> Stats {
         };
         if let Some((class, d)) = bad {
             let desc = format!("an OutputResultEntry built through its public fields: signal {} ({} bits), output {o}, expected {e}\n{d}", ["output Q", "bidirectional Q", "declared V"][kind], sig.bits);
-            st.violation(&format!("hand-built entry: {class}"), u, desc.clone(), || json!({"kind": "none", "text": desc, "expected": [format!("check() = {want}")], "observed": [d.clone()]}));
+            st.violation(&format!("hand-built entry: {class}"), u, desc.clone(), || json!({"kind": "entry", "index": u, "text": desc, "expected": [format!("check() = {want}")], "observed": [d.clone()]}));
         }
     })
 }
